@@ -1353,7 +1353,12 @@ func joinSQL(j *JoinClause) string {
 	sb.WriteString(j.Type)
 	sb.WriteString(" JOIN ")
 	sb.WriteString(tableRefSQL(&j.Right))
-	if j.Condition != nil {
+	if cols, ok := j.Condition.(*ListExpression); ok && cols != nil {
+		// the parser represents USING (a, b) as a list of column names
+		sb.WriteString(" USING (")
+		sb.WriteString(exprSQL(cols))
+		sb.WriteString(")")
+	} else if j.Condition != nil {
 		sb.WriteString(" ON ")
 		sb.WriteString(exprSQL(j.Condition))
 	}
